@@ -12,7 +12,7 @@ use crate::rng::Rng;
 pub const RULE: &str = "case = one random operation history (new / with_capacity / from_rows / resize up, down, to 0 / reserve / fill / row write / cell write via MatrixCoordinates / clone + independence / == against a rebuilt matrix / iter, rev, iter_mut, IntoIterator) on DenseMatrix<T, C> for T in {u8,u32,f32,i64} x C in {1,5,7,16,21,32,43}, checked after EVERY operation against a Vec<Vec<T>> model: rows(), columns(), every cell, surviving rows unchanged, new rows default, iteration order and length in both directions, every row pointer 32-byte aligned, stride >= C and stride*size_of::<T>() a multiple of 32. Non-trivial = history with at least one resize and one write; distinct = distinct (type, C, op sequence).";
 
 pub const REQUIRED: &[&str] = &[
-    "op.new", "op.with_capacity", "op.from_rows", "op.resize_up", "op.resize_down", "op.resize_zero", "op.reserve",
+    "op.new", "op.with_capacity", "op.with_capacity.below_rows", "op.from_rows", "op.resize_up", "op.resize_down", "op.resize_zero", "op.reserve",
     "op.fill", "op.row_write", "op.cell_write", "op.clone", "op.clone_from", "op.eq", "op.iter", "op.iter_rev", "op.iter_mut",
     "op.into_iter", "type.u8", "type.u32", "type.f32", "type.i64", "cols.1", "cols.5", "cols.7", "cols.16", "cols.21",
     "cols.32", "cols.43", "class.padded_stride",
@@ -231,8 +231,27 @@ pub fn history<T: Elem, C: ArrayLength + PartialEq>(case: u64, rng: &mut Rng, re
             rep.cover("op.new");
         }
         1 => {
-            let cap = r0 + rng.below(40);
-            m = DenseMatrix::with_capacity(r0, cap);
+            // the capacity is a hint: below, equal to or above the row count
+            let cap = match rng.below(4) {
+                0 => rng.below(r0 + 1),
+                1 => r0,
+                _ => r0 + rng.below(40),
+            };
+            if cap < r0 {
+                rep.cover("op.with_capacity.below_rows");
+            }
+            let made = guard(|| DenseMatrix::<T, C>::with_capacity(r0, cap));
+            m = match made {
+                Ok(x) => x,
+                Err(p) => {
+                    rep.violate(&format!("c19.panic:{}", panic_site(&p)), case, format!("with_capacity({}, {}) panicked: {}", r0, cap, p), J::obj().set("type", J::s(tname)).set("columns", J::u(c)));
+                    return;
+                }
+            };
+            if m.capacity() < cap.max(r0) {
+                rep.violate("c19.state", case, format!("with_capacity({}, {}): capacity() = {}", r0, cap, m.capacity()), J::obj().set("type", J::s(tname)).set("columns", J::u(c)));
+                return;
+            }
             model = vec![vec![T::default(); c]; r0];
             ops.push(format!("with_capacity({},{})", r0, cap));
             rep.cover("op.with_capacity");
